@@ -3,5 +3,6 @@ import PPModel.Base.PyList
 import PPModel.Mod.LineCol
 import PPModel.Mod.PR
 import PPModel.Mod.PRSpec
+import PPModel.Mod.PRHeap
 import PPModel.Driver.LineCol
 import PPModel.Driver.PR
